@@ -21,7 +21,7 @@ CLAIMS = {
          "Trusted: go/types, go/cfg; the dictionary of Mongo operator meanings on scalars.",
          "DESIGN.md §4 C14"),
  "C10": ("abstract interpretation over go/ssa (domain nil/non-nil/true/false) of HasKey/Get under the library's found/absent outcomes; must-assign dataflow, commit-after-error and iterator-positioning typestate over go/cfg; registration/link check (go/types)",
-         "Decides sibling agreement of the four adapters structurally, for ALL keys and operation sequences: (S1) every HasKey/Get of every store, transaction and iterator type returns true/false (nil/non-nil error) exactly on the library's found/absent outcome and calls no method on a nil interface value in either; (S2) iterators whose Valid() reads cached fields assign them on every path of Seek, SeekReverse and Next; (S3) no library Commit/Flush is reached after the Update/BulkWrite callback failed, none is deferred unconditionally, (S3b) transaction objects do not write straight to the store handle; (S4) library iterators are positioned before Valid/Key/Value/Item; (S5) driver names the server selects are registered by packages it links. Does not decide key order, seek landing positions, prefix-delete completeness, or cross-driver equality of traversal results.",
+         "Decides sibling agreement of the four adapters structurally, for ALL keys and operation sequences: (S1) every HasKey/Get of every store, transaction and iterator type returns true/false (nil/non-nil error) exactly on the library's found/absent outcome and calls no method on a nil interface value in either; (S2) iterators whose Valid() reads cached fields assign them on every path of Seek, SeekReverse and Next; (S3) no library Commit/Flush is reached after the Update/BulkWrite callback failed, none is deferred unconditionally, (S3b) transaction objects do not write straight to the store handle; (S4) library iterators are positioned before Valid/Key/Value/Item; (S5) driver names the server selects are registered by packages it links; (S6) block-wise prefix deletes repeat whenever a block came back full; (S7) Seek/SeekReverse hand the caller's key itself to the library. Does not decide key order, seek landing positions, prefix-delete completeness, or cross-driver equality of traversal results.",
          "Trusted: outcome tables of the store libraries' lookup calls and the rollback behaviour of bolt/badger transaction wrappers (props/c10.go); go/ssa, go/cfg.",
          "DESIGN.md §4 C10"),
  "C01": ("ownership analysis of the traveler constructors, private-copy classification of in-place writes, dispatch totality over the statement oneof, ordering-domain evaluation of limit/skip/range (go/types AST)",
@@ -41,7 +41,7 @@ CLAIMS = {
          "Trusted: go/types, go/cfg; every exported method of a shared type can run concurrently with every other; locks are identified by expression text within one type's methods.",
          "DESIGN.md §4 C17"),
  "C05": ("must-pass-through dataflow on per-method specialised CFGs + table totality (go/types, go/cfg)",
-         "Decides a structural necessary condition for ALL methods/transports: every RPC of every registered service is in the auth tables; in both interceptor closures, specialised per method, a checked Validate and a checked Enforce(user, request graph, MethodMap[method]) dominate every reachable handler call and a handler call is reachable; the bulk write filter enforces per element; interceptors are installed on the gRPC server and on every direct (HTTP gateway) client of the real server; the generated gateway shims route through the interceptor with the right FullMethod. Does not decide the policy engine, credential parsing, or what handlers do after the check.",
+         "Decides a structural necessary condition for ALL methods/transports: every RPC of every registered service is in the auth tables; in both interceptor closures, specialised per method, a checked Validate and a checked Enforce(user, request graph, MethodMap[method]) dominate every reachable handler call and a handler call is reachable; the bulk write filter enforces per element; interceptors are installed on the gRPC server and on every direct (HTTP gateway) client of the real server; the generated gateway shims route through the interceptor with the right FullMethod; no look-up key of the access-control code concatenates request strings without a separator. Does not decide the policy engine, credential parsing, or what handlers do after the check.",
          "Trusted: go/types, go/cfg, grpc-go interceptor chaining, grpc_middleware chain order; NullAuth/NullAccess accept everything.",
          "DESIGN.md §4 C05"),
  "C03": ("must-dataflow over go/cfg with interprocedural transformer summaries; key-codec typing over go/types AST",
